@@ -4,6 +4,30 @@ ROOT = os.path.dirname(os.path.dirname(os.path.abspath(__file__)))
 PROPS = [json.loads(l) for l in open(os.path.join(ROOT, 'properties.jsonl'))]
 
 CLAIMED = {
+ 'C16': dict(
+   text=('Machine-checked proof (Coq 8.16.1) over the ORM model Model/Orm.v: for every history (any operations, failures, injected faults, '
+         'out-of-band SQL, any cache configuration) the dirty flag of every held object is true exactly while assignments are pending '
+         '(C16_dirty_iff_pending, invariant over all reachable states); from any state no operation other than syncUpdate/sync/pickling sends '
+         'an UPDATE to the lazy class (C16_no_update_before_flush); syncUpdate sends exactly one UPDATE of exactly the pending columns and '
+         'leaves exactly the latest pending values in the row (C16_flush_exact); a lazy assignment shows and queues the value and sends nothing '
+         '(C16_lazy_assignment). The model is tied to the code by running it (vm_compute) against the real SQLObject on sqlite after every '
+         'operation of generated histories (outcome, SQL log, tables, passive object state, cache contents).'),
+   note=('Trusted: Coq kernel; the hand-written model Model/Orm.v (validated only by the correspondence); sqlite and CPython refcounting are '
+         'modelled; one fixture class per sqlmeta variant with Int columns. Immediate insert/delete is proved in a later round (statements in Proofs/OrmSpec.v).'),
+   technique='Coq proof (invariant over all reachable states of an executable ORM model) + vm_compute correspondence against sqlite',
+   design='3/C16'),
+ 'C06': dict(
+   text=('Machine-checked proof (Coq 8.16.1) over the ORM model: from ANY state, an attribute assignment, multi-column set, syncUpdate or '
+         'destroySelf that raises (invalid value in any position, NOT NULL/UNIQUE rejection, stale handle, or a database error injected at any '
+         'statement index) leaves heap, slots, tables, cache and pickles exactly as before (C06_failing_write_changes_nothing). Creation is '
+         'refuted for a database error at the re-read after the INSERT (C06_create_reread_fault_refuted; open finding) and otherwise covered '
+         'by the correspondence and oracle; its theorem is stated in Proofs/OrmSpec.v and proved in a later round. Restricting references and '
+         'cascades belong to C12, subclass inserts to C15.'),
+   note=('Trusted: Coq kernel; the hand-written model Model/Orm.v (validated only by the correspondence: outcome, SQL log, all tables, passive '
+         'state of every held object and cache contents after every operation, with fault injection through the connection\'s _executeRetry); '
+         'sqlite statement-level atomicity in autocommit mode is modelled.'),
+   technique='Coq proof (symbolic execution of every write path of an executable ORM model) + vm_compute correspondence with fault injection against sqlite',
+   design='3/C06'),
  'C10': dict(
    text=('Machine-checked proof (Coq 8.16.1) that, for every list of rows, every chain of slices with arbitrary integer or omitted '
          'bounds, an optional final index or limit(n), and each of the sqlite/mysql/postgres LIMIT/OFFSET renderings, the library\'s '
